@@ -77,3 +77,155 @@ def _invert(M):
                 f = A[r][c]
                 A[r] = [x - f * y for x, y in zip(A[r], A[c])]
     return [row[n:] for row in A]
+
+
+# ------------------------------------------------------------------------------------------------
+# HistFactory rates and constraint terms, walking the spec dictionary as written
+# ------------------------------------------------------------------------------------------------
+BINWISE = ("shapesys", "staterror", "shapefactor")
+
+
+def channel_order(spec):
+    return sorted({c["name"] for c in spec["channels"]})
+
+
+def binwise_index(spec):
+    """(type, name) -> {(channel, bin): component index}.
+
+    shapesys / staterror: one component per (channel, bin) in which some sample declares the
+    modifier, numbered in sorted-channel order then bin order.  shapefactor: component = bin
+    index within the channel (the same components are shared by every channel declaring it)."""
+    decl = {}
+    for c in spec["channels"]:
+        for s in c["samples"]:
+            for m in s["modifiers"]:
+                if m["type"] in BINWISE:
+                    decl.setdefault((m["type"], m["name"]), set()).add(c["name"])
+    nb = {c["name"]: len(c["samples"][0]["data"]) for c in spec["channels"]}
+    out = {}
+    for (t, n), chans in decl.items():
+        idx = {}
+        k = 0
+        for cn in sorted(chans):
+            for b in range(nb[cn]):
+                if t == "shapefactor":
+                    idx[(cn, b)] = b
+                else:
+                    idx[(cn, b)] = k
+                    k += 1
+        out[(t, n)] = idx
+    return out
+
+
+def rates(env, spec, par, hcode="code4p", ncode="code4", clip_sample=None, clip_bin=None, interp_fn=None,
+          by_sample=False):
+    """expected rate {(channel, bin): term} (and {(channel, sample, bin): term} with by_sample).
+
+    par(name, i) -> value of component i of the parameter set called `name`.
+    interp_fn(code, alpha, lo, nom, hi) defaults to the published formulas (oracle.interp)."""
+    N = env.num
+    interp_fn = interp_fn or (lambda code, a, lo, nom, hi: interp(env, code, a, lo, nom, hi))
+    bidx = binwise_index(spec)
+    chans = {}
+    for c in spec["channels"]:
+        chans.setdefault(c["name"], []).append(c)
+    out = {}
+    per_sample = {}
+    for cn in channel_order(spec):
+        for c in chans[cn]:
+            nbins = len(c["samples"][0]["data"])
+            for b in range(nbins):
+                tot = N(0)
+                for s in c["samples"]:
+                    delta = N(s["data"][b])
+                    fac = N(1)
+                    for m in s["modifiers"]:
+                        t, n, d = m["type"], m["name"], m["data"]
+                        if t == "histosys":
+                            delta = delta + interp_fn(hcode, par(n, 0), d["lo_data"][b], s["data"][b], d["hi_data"][b])
+                        elif t == "normsys":
+                            fac = fac * interp_fn(ncode, par(n, 0), d["lo"], 1, d["hi"])
+                        elif t in ("normfactor", "lumi"):
+                            fac = fac * N(par(n, 0))
+                        elif t in BINWISE:
+                            fac = fac * N(par(n, bidx[(t, n)][(cn, b)]))
+                        else:
+                            raise KeyError(t)
+                    v = fac * delta
+                    if clip_sample is not None:
+                        v = env.ite(v < N(clip_sample), N(clip_sample), v)
+                    per_sample[(cn, s["name"], b)] = v
+                    tot = tot + v
+                if clip_bin is not None:
+                    tot = env.ite(tot < N(clip_bin), N(clip_bin), tot)
+                out[(cn, b)] = tot
+    if by_sample:
+        return out, per_sample
+    return out
+
+
+def constraint_terms(env, spec, user, par):
+    """one entry per constrained parameter set: name -> list of components
+    ('N', mean, sigma, default_aux) | ('P', rate_mean, factor, default_aux) in component order.
+
+    user: dict name -> measurement-level parameter config (auxdata / sigmas / factors overrides)."""
+    N = env.num
+    bidx = binwise_index(spec)
+    uses = {}
+    for c in spec["channels"]:
+        for s in c["samples"]:
+            for m in s["modifiers"]:
+                uses.setdefault(m["name"], []).append((c, s, m))
+    terms = {}
+    for name, us in uses.items():
+        types = {m["type"] for _, _, m in us}
+        cfg = user.get(name, {})
+        if types & {"histosys", "normsys"}:
+            sig = cfg["sigmas"][0] if cfg.get("sigmas") else 1
+            aux = cfg["auxdata"][0] if cfg.get("auxdata") else 0
+            terms[name] = [("N", N(par(name, 0)), N(sig), N(aux))]
+        elif "lumi" in types:
+            terms[name] = [("N", N(par(name, 0)), N(cfg["sigmas"][0]), N(cfg["auxdata"][0]))]
+        elif "staterror" in types:
+            idx = bidx[("staterror", name)]
+            comps = []
+            for (cn, b), k in sorted(idx.items(), key=lambda kv: kv[1]):
+                tot = N(0)
+                q = N(0)
+                for (c, s, m) in us:
+                    if c["name"] == cn and m["type"] == "staterror":
+                        tot = tot + N(s["data"][b])
+                for (c, s, m) in us:
+                    if c["name"] == cn and m["type"] == "staterror":
+                        q = q + (N(m["data"][b]) / tot) ** 2
+                sigma = q.sqrt()
+                if _is_zero(sigma):
+                    sigma = N(1)      # documented placeholder: the component is held fixed
+                comps.append((k, sigma))
+            out = []
+            for k, sigma in comps:
+                sg = N(cfg["sigmas"][k]) if cfg.get("sigmas") else sigma
+                aux = N(cfg["auxdata"][k]) if cfg.get("auxdata") else N(1)
+                out.append(("N", N(par(name, k)), sg, aux, sigma))
+            terms[name] = out
+        elif "shapesys" in types:
+            (c, s, m) = [u for u in us if u[2]["type"] == "shapesys"][0]
+            out = []
+            for b in range(len(s["data"])):
+                if _is_zero(s["data"][b]) or _is_zero(m["data"][b]):
+                    tau = N(1)        # invalid bin: placeholder factor, component held fixed
+                else:
+                    tau = (N(s["data"][b]) ** 2) / (N(m["data"][b]) ** 2)
+                fac = N(cfg["factors"][b]) if cfg.get("factors") else tau
+                aux = N(cfg["auxdata"][b]) if cfg.get("auxdata") else tau
+                out.append(("P", N(par(name, b)), fac, aux, (s["data"][b], m["data"][b])))
+            terms[name] = out
+    return terms
+
+
+def _is_zero(x):
+    v = getattr(x, "v", x)
+    try:
+        return bool(getattr(x, "concrete", True)) and float(v) == 0.0
+    except TypeError:
+        return False
